@@ -38,8 +38,22 @@ def build_cases(chk):
         long += [scen_log.stall_case(rng, rng.choice(['ret', 'raise', 'exit3']), round(rng.uniform(5.5, 40.0), 1),
                                      n=rng.choice([300, 600, 2000, 5000]), size=rng.choice([150, 500, 1000, 3000]),
                                      at=rng.randrange(0, 120)) for _ in range(12)]
+    # a slow parent handler with a tail of records emitted right before the target ends (all must have been handled
+    # when join()/result() returns, whichever way the target ended), also with a daemonic child whose parent program
+    # ends right after join
+    if chk.tier == 'quick':
+        long += [scen_log.slowtail_case(rng, 'raise'), scen_log.slowtail_case(rng, 'exit3', n=150, slow=0.025),
+                 scen_log.slowtail_case(rng, 'ret', n=150),
+                 scen_log.slowtail_case(rng, 'raise', daemon=True, prog_exit=True),
+                 scen_log.slowtail_case(rng, 'exit3', n=160, slow=0.025, daemon=True, prog_exit=True)]
+    else:
+        long += [scen_log.slowtail_case(rng, e, n=rng.choice([100, 200, 300]), slow=rng.choice([0.01, 0.02, 0.025]),
+                                        daemon=d, prog_exit=d)
+                 for e in ('ret', 'raise', 'exit0', 'exit3', 'exitstr') for d in (False, True) for _ in range(3)]
     for i, c in enumerate(long):
         cases.insert(min(len(cases), i * 16), c)
+    # the parent changes its level settings while the child runs (own logger / ancestor / root), at quiescent points
+    cases += [scen_log.levels_case(rng) for _ in range(8 if chk.tier == 'quick' else 200)]
     return cases
 
 
@@ -84,7 +98,7 @@ def run(chk):
         'cases = boundary volumes (0, 1, 2 records ... 2000x100 B, 50x2 kB, 20x64 kB, 3x200 kB; thorough: 20000x100 B, '
         '100x64 kB, 1x1 MB) x ending kind (return, raise, sys.exit 0/3/str), plus random (n, size or mixed sizes, ending, '
         'level pattern, root level, gap before the end, a record from handle_exception after the target ended, first accessor '
-        'join/result, a custom level below DEBUG with parent root level 1), plus a stalled parent (its handler blocks 7 s - thorough: up to 40 s - at a generated record while the child has a backlog beyond the pipe buffer) and bursts (13000-16000 - thorough: 150000 - small records while the parent is stalled at its first record), plus the same as a ProcessServlet worker inside a Server and as the worker of a one-process Pool (close+join); each case runs the REAL mpservice Process in a '
+        'join/result, a custom level below DEBUG with parent root level 1), plus a stalled parent (its handler blocks 7 s - thorough: up to 40 s - at a generated record while the child has a backlog beyond the pipe buffer) and bursts (13000-16000 - thorough: 150000 - small records while the parent is stalled at its first record), a slow handler (20-25 ms per record) with 150-200 records right before return / raise / sys.exit(3) - also for a daemonic child whose parent program ends right after join -, level changes by the parent (own logger / ancestor / root) at hand-shake points while the child runs, plus the same as a ProcessServlet worker inside a Server and as the worker of a one-process Pool (close+join); each case runs the REAL mpservice Process in a '
         'fresh interpreter in its own session with a recording handler on the parent\'s root logger; non-trivial = at least two '
         'records emitted and an observation obtained; distinct = distinct (case, summary of the handled sequence)')
     chk.trusted += TRUSTED
